@@ -171,7 +171,10 @@ func compMaps(
 		return object.BuiltInFalse
 	}
 
-	for hash, pair1 := range *m1.Pairs {
+	// NOTE: compare in insertion order because `==` of the values may be user-defined
+	// and the order of its calls must not depend on the map layout
+	for _, hash := range *m1.HashKeys {
+		pair1 := (*m1.Pairs)[hash]
 		pair2, ok := (*m2.Pairs)[hash]
 		if !ok {
 			return object.BuiltInFalse
